@@ -50,6 +50,9 @@ class Gen:
         return self.ident(tid, ts[tid]["name"]), tid
 
     def add(self, op, hop):
+        # catalogue commands go through either transport: the binary TCP protocol or the HTTP API (separate handlers)
+        if getattr(hop, "name", None) == "Cmd" and "c" not in op and self.rng.random() < self.profile.get("http", 0.3):
+            op = dict(op, c="httproot")
         self.ops.append(op)
         self.hops.append(hop)
 
